@@ -30,6 +30,15 @@ type Case struct {
 	Target    []string    `json:"target"`
 	Mode      string      `json:"mode"`
 	Steps     []RedirStep `json:"steps"`
+	// round 2 (SentinelRoute.tla): ConnLifetime set; what happens to the first transmission of the call; every
+	// transmission of the call the specification predicts, with its class
+	Lft   bool   `json:"lft"`
+	Fault string `json:"fault"`
+	After int    `json:"after"`
+	Sends []struct {
+		From int    `json:"from"`
+		Cls  string `json:"cls"`
+	} `json:"sends"`
 }
 
 type RedirStep struct {
@@ -193,7 +202,7 @@ func (discard) Write(p []byte) (int, error) { return len(p), nil }
 // ---------------------------------------------------------------------------------------------- route cases
 
 func cfgKey(c Case) string {
-	return fmt.Sprintf("%s nrep=%d redirect=%v pred=%v sel=%s az=%v mode=%s", c.Client, c.Nrep, c.Redirect, c.Pred, c.Sel, c.Az, c.Mode)
+	return fmt.Sprintf("%s nrep=%d redirect=%v pred=%v sel=%s az=%v mode=%s lft=%v", c.Client, c.Nrep, c.Redirect, c.Pred, c.Sel, c.Az, c.Mode, c.Lft)
 }
 
 func classOfCase(c Case) string {
@@ -236,12 +245,37 @@ func standaloneMode(rep *vh.Report) {
 	}
 	sort.Strings(order)
 	distinct := map[string]bool{}
+	// the cases with ConnLifetime mostly wait (for connections to reach their lifetime): they run beside the others
+	unit := timeUnit()
+	var lwg sync.WaitGroup
+	lft := map[string]func(*vh.Report, map[string]bool){}
+	var lmu sync.Mutex
+	for _, k := range order {
+		if cs := groups[k]; cs[0].Client == "sentinel" && cs[0].Lft {
+			lwg.Add(1)
+			go func() {
+				defer lwg.Done()
+				f := runSentinelLifetimeRoutes(cs, unit)
+				lmu.Lock()
+				lft[k] = f
+				lmu.Unlock()
+			}()
+		}
+	}
 	for _, k := range order {
 		cs := groups[k]
-		if cs[0].Client == "sentinel" {
+		if cs[0].Client == "sentinel" && cs[0].Lft {
+			continue
+		} else if cs[0].Client == "sentinel" {
 			runSentinelRoutes(rep, cs, distinct)
 		} else {
 			runStandaloneRoutes(rep, cs, distinct)
+		}
+	}
+	lwg.Wait()
+	for _, k := range order {
+		if f := lft[k]; f != nil {
+			f(rep, distinct)
 		}
 	}
 	rep.DistinctNontrivial += len(distinct)
@@ -312,6 +346,12 @@ func judgeRoute(rep *vh.Report, c Case, recv []string, err error, panicked strin
 		}
 	}
 	sigTail := fmt.Sprintf("client=%s%s api=%s call=%s nrep=%d selector=%s az=%v redirect=%v", c.Client, c.Mode, c.Api, classOfCase(c), c.Nrep, selClass, c.Az, c.Redirect)
+	if c.Lft {
+		sigTail += " lifetime"
+		if c.Fault != "none" {
+			sigTail += fmt.Sprintf(" fault=%s after=%d of %d", c.Fault, c.After, len(c.Flags))
+		}
+	}
 	if c.Pred || c.Sel != "none" || c.Mode != "" {
 		distinct[sigTail] = true
 	}
